@@ -818,6 +818,28 @@ mod verif_battery_c18 {
     }
 
     #[tokio::test]
+    async fn c18_an_oversize_event_of_any_text_is_dropped_and_the_rest_goes_out() {
+        let (port, bodies) = capture();
+        let vm = VmMetaData::empty();
+        let max = EventReader::MAX_MESSAGE_SIZE;
+        // oversize events whose text has multi-byte characters at every alignment around the first kilobytes
+        for pad in 0..4usize {
+            for ch in ["\u{e9}", "\u{20ac}", "\u{1f600}"] {
+                bodies.lock().unwrap().clear();
+                let big = "a".repeat(pad) + &ch.repeat(max / ch.len() + 10);
+                let client = WireServerClient::new("127.0.0.1", port, KeyKeeperSharedState::start_new());
+                let vm2 = vm.clone();
+                let events = vec![event("x".repeat(10), "7"), event(big, "7"), event("z".repeat(10), "7")];
+                let r = tokio::spawn(async move { EventReader::send_events(events, &client, &vm2).await }).await;
+                assert!(r.is_ok(), "send_events panicked on an oversize event of {:?} characters shifted by {} bytes", ch, pad);
+                let got = bodies.lock().unwrap().clone();
+                let uploaded: usize = got.iter().map(|b| String::from_utf8_lossy(b).matches("<Event id=").count()).sum();
+                assert_eq!(2, uploaded, "the two small events around an oversize one are uploaded");
+            }
+        }
+    }
+
+    #[tokio::test]
     async fn c18_no_field_of_a_stored_event_adds_structure() {
         let (port, bodies) = capture();
         let client = WireServerClient::new("127.0.0.1", port, KeyKeeperSharedState::start_new());
@@ -864,6 +886,12 @@ mod verif_battery_c11 {
         let all = state.get_all_failed_connection_summary().await.unwrap();
         let counted: u64 = all.iter().map(|x| x.count).sum();
         assert_eq!(250, counted, "250 concurrent denials, {} acknowledged, {} counted in the published summary", reported, counted);
+        // publishing (reading) the summary does not consume it: a second read and later denials see the same entry
+        let again = state.get_all_failed_connection_summary().await.unwrap();
+        assert_eq!(250u64, again.iter().map(|x| x.count).sum::<u64>(), "the failed-authorization summary is emptied by reading it");
+        state.add_one_failed_connection_summary(summary()).await.unwrap();
+        let third = state.get_all_failed_connection_summary().await.unwrap();
+        assert_eq!(251u64, third.iter().map(|x| x.count).sum::<u64>(), "denials on either side of a publication do not accumulate");
     }
 }
 '''
